@@ -11,6 +11,7 @@ use crate::tags::Tags;
 use crate::Program;
 
 use deno_ast::view as ast_view;
+use deno_ast::MediaType;
 use deno_ast::SourcePos;
 use deno_ast::SourceRange;
 use deno_ast::SourceRanged;
@@ -72,6 +73,17 @@ fn program_code_start(ctx: &Context) -> SourcePos {
     .unwrap_or(code_start)
 }
 
+/// The statement that brings `process` into scope: an `import` declaration,
+/// or a `require` call in a CommonJS file (where `import` declarations are a
+/// syntax error).
+fn fix_statement(ctx: &Context) -> &'static str {
+  if ctx.media_type() == MediaType::Cjs {
+    "const process = require(\"node:process\");"
+  } else {
+    "import process from \"node:process\";"
+  }
+}
+
 impl NoProcessGlobalHandler {
   fn fix_change(&self, ctx: &mut Context) -> LintFixChange {
     // If the fix is an import, we want to insert it after the last import
@@ -85,11 +97,9 @@ impl NoProcessGlobalHandler {
         (SourceRange::new(code_start, code_start), "", "\n")
       };
 
+    let statement = fix_statement(ctx);
     LintFixChange {
-      new_text: format!(
-        "{leading}import process from \"node:process\";{trailing}"
-      )
-      .into(),
+      new_text: format!("{leading}{statement}{trailing}").into(),
       range: fix_range,
     }
   }
@@ -101,7 +111,7 @@ impl NoProcessGlobalHandler {
       range,
       CODE,
       MESSAGE,
-      Some(String::from("Add `import process from \"node:process\";`")),
+      Some(format!("Add `{}`", fix_statement(ctx))),
       vec![LintFix {
         description: "Import from \"node:process\"".into(),
         changes: vec![change],
